@@ -155,6 +155,11 @@ func c03Prior(name string) fsmodel.Tree {
 		return fsmodel.Tree{{Path: "a", Kind: fsmodel.File, Perm: 0644, Mtime: T, Data: []byte("old")}}
 	case "b-relsymlink-out":
 		return fsmodel.Tree{{Path: "b", Kind: fsmodel.Symlink, Perm: 0777, Mtime: T, Link: relOutD}, {Path: "a", Kind: fsmodel.Dir, Perm: 0700, Mtime: T}}
+	case "listing-link-out":
+		// the name a metadata-only receive writes its listing to is a link to an outside file / an outside directory
+		return fsmodel.Tree{{Path: ".fsutil-metadata", Kind: fsmodel.Symlink, Perm: 0777, Mtime: T, Link: "/outside/f"}, {Path: "a", Kind: fsmodel.Dir, Perm: 0755, Mtime: T}}
+	case "listing-link-dir":
+		return fsmodel.Tree{{Path: ".fsutil-metadata", Kind: fsmodel.Symlink, Perm: 0777, Mtime: T, Link: relOutD}}
 	case "a-chain-out":
 		// a link whose first hop stays inside the destination and whose second hop leaves it
 		return fsmodel.Tree{{Path: "a", Kind: fsmodel.Symlink, Perm: 0777, Mtime: T, Link: "b"}, {Path: "b", Kind: fsmodel.Symlink, Perm: 0777, Mtime: T, Link: "/outside/d"}}
@@ -175,6 +180,8 @@ type c03Case struct {
 	// Deep > 0: the script is preceded by a valid chain of Deep nested directories (the last one named j) and a
 	// file j/f; "@" in the script's paths stands for the parent of j
 	Deep int `json:"deep,omitempty"`
+	// Opt: receive options other than the default: "meta" (metadata-only, everything selected), "meta-merge"
+	Opt string `json:"opt,omitempty"`
 }
 
 func deepParent(n int) string {
@@ -245,6 +252,9 @@ func (c c03Case) String() string {
 	deep := ""
 	if c.Deep > 0 {
 		deep = fmt.Sprintf(" after-a-valid-chain-of-depth=%d(@=%s)", c.Deep, deepParent(c.Deep))
+	}
+	if c.Opt != "" {
+		deep += " options=" + c.Opt
 	}
 	return fmt.Sprintf("script=[%s] prior=%s answer-reqs=%v cooperative-tail=%v%s", strings.Join(s, "; "), c.Prior, c.Answer, c.Coop, deep)
 }
@@ -433,7 +443,12 @@ func judgeC03(root string, c c03Case) (string, string) {
 				done <- fmt.Errorf("panic: %v", r)
 			}
 		}()
-		done <- fsutil.Receive(ctx, h, dest, fsutil.ReceiveOpt{})
+		opt := fsutil.ReceiveOpt{}
+		if strings.HasPrefix(c.Opt, "meta") {
+			opt.MetadataOnly = func(string, *types.Stat) bool { return true }
+			opt.Merge = c.Opt == "meta-merge"
+		}
+		done <- fsutil.Receive(ctx, h, dest, opt)
 	}()
 	var rerr error
 	giveUp := func() {
@@ -651,6 +666,37 @@ func childC03(args []string) int {
 					out.Count[k]++
 					if out.Count[k] <= 3 {
 						// streamed at once: a later crash of this process must not lose it
+						json.NewEncoder(os.Stdout).Encode(c03Out{Viol: []c03Viol{{k, m, c}}})
+					} else {
+						json.NewEncoder(os.Stdout).Encode(c03Out{Count: map[string]int{k: 1}})
+					}
+				}
+			}
+		}
+	}
+	// metadata-only receives (with and without merge) into destinations where the listing name is a link to outside:
+	// every script of length <=1 (thorough: <=2), cooperative tail so that the listing gets written
+	ml := 1
+	if tier == "thorough" {
+		ml = 2
+	}
+	for _, sc := range c03Scripts(tier, ml) {
+		for _, pr := range []string{"listing-link-out", "listing-link-dir", "empty"} {
+			for _, op := range []string{"meta", "meta-merge"} {
+				i++
+				if i%n != shard || i < start || redundantAfterFin(sc) {
+					continue
+				}
+				c := c03Case{Script: sc, Prior: pr, Coop: true, Opt: op}
+				if b, err := json.Marshal(map[string]any{"i": i, "case": c, "evals": out.Evals, "cancelled": cancelled.Load()}); err == nil {
+					cur.Truncate(0)
+					cur.WriteAt(b, 0)
+				}
+				k, m := judgeC03("/", c)
+				out.Evals++
+				if k != "" {
+					out.Count[k]++
+					if out.Count[k] <= 3 {
 						json.NewEncoder(os.Stdout).Encode(c03Out{Viol: []c03Viol{{k, m, c}}})
 					} else {
 						json.NewEncoder(os.Stdout).Encode(c03Out{Count: map[string]int{k: 1}})
